@@ -105,6 +105,18 @@ Theorem C11_ideal_possession :
 Proof. exact ideal_server_possession. Qed.
 Print Assumptions C11_ideal_possession.
 
+Theorem C11_ideal_client_possession :
+  forall (ld : loaded) (ra : bytes) (frames : list mframe) sk sent,
+    client_run ideal ld ra frames = {| c_out := CAccept sk; c_sent := sent |} ->
+    exists cid tok sig sid rb mac,
+      ld = Some (cid, tok, sig) /\
+      server_proof ideal (i_kdf sig tok) cid ra sid rb (reader_of frames) /\
+      mac = i_mac (i_kdf sig tok) (mac_T cid sid ra rb) /\
+      forall sig' tok' m', mac = i_mac (i_kdf sig' tok') m' ->
+                           sig' = sig /\ tok' = tok /\ m' = mac_T cid sid ra rb.
+Proof. exact ideal_client_possession. Qed.
+Print Assumptions C11_ideal_client_possession.
+
 Theorem C11_ideal_mac_fixes_signature : forall sig tok m sig' tok' m',
   i_mac (i_kdf sig tok) m = i_mac (i_kdf sig' tok') m' -> sig = sig' /\ tok = tok' /\ m = m'.
 Proof. exact ideal_mac_fixes_signature. Qed.
